@@ -262,6 +262,23 @@ func (st *pkgState) inlineOnce(fi *funcInfo, s, next ast.Stmt) (repl []ast.Stmt,
 				return nil, false, false
 			}
 		}
+	case *ast.DeferStmt:
+		// `defer h(args)()`: h runs now, what it returns is deferred
+		if inner, ok := x.Call.Fun.(*ast.CallExpr); ok && st.inlinable(inner) && st.numResults(inner) == 1 && st.firstCall(&ast.ExprStmt{X: inner}) == inner {
+			st.n++
+			tmp := fmt.Sprintf("_inl%d_d", st.n)
+			decl, okT := st.resultVarDecl(inner, 0, tmp, pos)
+			if !okT {
+				return nil, false, false
+			}
+			body, ok := st.expand(fi, inner, sink{lhs: []ast.Expr{&ast.Ident{NamePos: pos, Name: tmp}}})
+			if !ok {
+				return nil, false, false
+			}
+			x.Call.Fun = &ast.Ident{NamePos: inner.Pos(), Name: tmp}
+			out := append([]ast.Stmt{decl}, body...)
+			return append(out, x, &ast.EmptyStmt{Semicolon: pos, Implicit: true}), false, true
+		}
 	case *ast.IfStmt:
 		if as, ok := x.Init.(*ast.AssignStmt); ok && len(as.Rhs) == 1 {
 			if call, ok := as.Rhs[0].(*ast.CallExpr); ok && st.inlinable(call) && (as.Tok == token.DEFINE || as.Tok == token.ASSIGN) && simpleLHS(as.Lhs) && len(as.Lhs) == st.numResults(call) {
